@@ -11,6 +11,7 @@ import Pdpy11.Driver.Parse
 import Pdpy11.Driver.Expr
 import Pdpy11.Driver.LineCol
 import Pdpy11.Driver.State
+import Pdpy11.Driver.Cli
 namespace Pdpy11.Driver
 
 def handle (line : String) : String :=
@@ -40,6 +41,7 @@ def handle (line : String) : String :=
     | "tree" => handleTree args
     | "linecol" => handleLineCol args
     | "state" => handleState args
+    | "cli" => handleCli args
     | "ping" => "pong"
     | _ => "bad-op"
 
